@@ -306,3 +306,60 @@ Theorem after_close_total : forall client o ops more, TimersSpec.first_op client
   AfterCloseP.no_raise_until_terminated (snd (Timers.run (Timers.conn_init client) (o :: ops))) more.
 Proof. exact AfterCloseP.after_close_history. Qed.
 Print Assumptions after_close_total.
+
+(* ---------- network-path table (round s05): model coq/model/ConnPaths.v, constants MAX_NETWORK_PATHS / EVICT_INDEX /
+   PROMOTE_INDEX and the source listing GENERATED (coq/gen/C05Paths.v, tools/gen/c05_paths.py) *)
+From AQ Require gen.C05Paths model.ConnPaths proofs.ConnPathsP.
+
+(* the generated listing of the current connection.py -- the "update network path" block, _find_network_path,
+   QuicNetworkPath.__init__, every statement that assigns or mutates self._network_paths, every statement that writes a
+   validation flag -- is the one the model was written against *)
+Theorem paths_sites_pinned : TlsSitesP.sites_eqb C05Paths.paths_sites ConnPaths.paths_sites_expected = true.
+Proof. exact ConnPathsP.paths_sites_known. Qed.
+Print Assumptions paths_sites_pinned.
+
+(* for EVERY table, every path object (found by its address or newly created) and every verdict of the payload the
+   "update network path" block of receive_datagram returns: both `.pop` are in range and `.index(network_path)` is applied
+   to a member; afterwards the packet's path is in the table, the MAX_NETWORK_PATHS bound holds, index 0 is the old active
+   path or -- for the newest non-probing packet from another path -- the packet's path, no object is there twice *)
+Theorem network_path_update_total : forall tab cur hs probing newer,
+  exists tab' cur',
+    ConnPaths.update_network_path tab cur hs probing newer = ConnPaths.UOk tab' cur' /\
+    ConnPaths.p_id cur' = ConnPaths.p_id cur /\
+    ConnPaths.mem_id (ConnPaths.p_id cur) tab' = true /\
+    (Zlen tab <= C05Paths.MAX_NETWORK_PATHS -> Zlen tab' <= C05Paths.MAX_NETWORK_PATHS) /\
+    (tab <> [] -> ConnPathsP.head_id tab' = if ConnPathsP.promotes tab cur probing newer
+                                            then Some (ConnPaths.p_id cur) else ConnPathsP.head_id tab) /\
+    (NoDup (map ConnPaths.p_id tab) -> NoDup (map ConnPaths.p_id tab')).
+Proof. exact ConnPathsP.network_path_update_total_proof. Qed.
+Print Assumptions network_path_update_total.
+
+(* receive_datagram as far as the table is concerned: any source address, any packets (first-flight reset, PATH_CHALLENGE /
+   PATH_RESPONSE effects on any entries, any verdicts) *)
+Theorem path_datagram_total : forall s addr ks, ConnPathsP.tab_ok (ConnPaths.ps_tab s) ->
+  exists s', ConnPaths.path_datagram s addr ks = ConnPaths.PROk s' /\ ConnPathsP.tab_ok (ConnPaths.ps_tab s').
+Proof. exact ConnPathsP.path_datagram_total_proof. Qed.
+Print Assumptions path_datagram_total.
+
+(* any history of connect() / receive_datagram / datagrams_to_send: no IndexError / ValueError, bound and no-duplicate kept *)
+Theorem path_run_total : forall os s, ConnPathsP.tab_ok (ConnPaths.ps_tab s) ->
+  (forall k, ConnPaths.path_run s os <> ConnPaths.PRRaise k) /\
+  (forall s', ConnPaths.path_run s os = ConnPaths.PROk s' -> ConnPathsP.tab_ok (ConnPaths.ps_tab s')).
+Proof. exact ConnPathsP.path_run_total_proof. Qed.
+Print Assumptions path_run_total.
+
+(* receive_datagram WITH the table inside the packet loop (ConnDgram.dgram_loop_paths: first-flight reset, payload effects,
+   the "update network path" block after every packet that passed the gate): for EVERY byte string, every connection state
+   with dconn_ok, every oracle valuation, every table with tab_ok, every source address and every packet verdict, neither
+   the receive path nor the network-path bookkeeping raises, and both invariants hold again *)
+Theorem receive_datagram_paths_total : forall c data orcs s addr vs,
+  CodecProofs.bytes_ok data -> dconn_ok c -> ConnPathsP.tab_ok (ConnPaths.ps_tab s) ->
+  match receive_datagram_paths true c data orcs s addr vs with
+  | (DOk c' _, ConnPaths.PROk s') =>
+      dconn_ok c' /\
+      (c_close (d_st c) = None -> own_close_ok (po0 :: orcs) (c_close (d_st c'))) /\
+      ConnPathsP.tab_ok (ConnPaths.ps_tab s')
+  | _ => False
+  end.
+Proof. exact receive_datagram_paths_total_all. Qed.
+Print Assumptions receive_datagram_paths_total.
